@@ -131,6 +131,44 @@ Theorem reachable_expiry_before_clock41 : forall cfg c0 evs id c,
 Proof. exact reachable_expiry_before_clock. Qed.
 Print Assumptions reachable_expiry_before_clock41.
 
+(* The same in the monitor's own terms (membership in the dump of the verif
+   hook, injected clock), over all histories: a client record of the dump of
+   a reachable state that is absent from the dump after enter() was not held
+   and its lastSeen + lease lies before the clock reading; the client of a
+   compound in flight is still in the dump. *)
+Theorem dump_expiry_before_clock41 : forall cfg c0 evs dc,
+  let st := fst (run (init cfg c0) evs) in
+  In dc (d_clients (dump_of st)) ->
+  find_dclient (dc_id dc) (dump_of (fst (enter st))) = None ->
+  dc_hold dc = 0%Z /\ dc_seen dc + cf_lease (st_cfg st) < st_clock st.
+Proof. exact dump_expiry_before_clock. Qed.
+Print Assumptions dump_expiry_before_clock41.
+
+Theorem dump_inflight_client_survives41 : forall cfg c0 evs t,
+  let st := fst (run (init cfg c0) evs) in
+  In t (st_threads st) -> find_dclient (t_client t) (dump_of (fst (enter st))) <> None.
+Proof. exact dump_inflight_client_survives. Qed.
+Print Assumptions dump_inflight_client_survives41.
+
+(* Soundness of the rule [lease_check] (the predicate Corr.v evaluates) for
+   lease expiry, for every reachable model state [st] and every monitor
+   state [L] in the simulation relation - clocks agree; every idle client
+   was last heard of no later than its lastSeen; every compound the monitor
+   believes in flight is in flight -: a step that removes no client beyond
+   what enter() expires is accepted.  (What is missing for
+   lease_monitor_holds_on_model: that [lease_update] maintains the relation,
+   and the justification of removals by CREATE_SESSION / DESTROY_CLIENTID.) *)
+Theorem lease_check_sound_for_expiry_partial : forall cfg c0 evs L s st',
+  let st := fst (run (init cfg c0) evs) in
+  lm_clock L = st_clock st ->
+  (forall c, In c (st_clients st) -> c_hold c = 0 -> exists t, heard_of L (c_id c) = Some t /\ t <= c_seen c) ->
+  (forall f, In f (lm_fly L) -> exists t, In t (st_threads st) /\ t_client t = ly_client f) ->
+  (forall id, cfind id (fst (enter st)) <> None -> cfind id st' <> None) ->
+  hs_dump s = dump_of st' ->
+  lease_check (cf_lease (st_cfg st)) L (dump_of st) s = "".
+Proof. exact lease_check_sound_for_expiry. Qed.
+Print Assumptions lease_check_sound_for_expiry_partial.
+
 (* The monitor accepts the model's trace of a client heard of only through
    SEQUENCE for 5.1 lease periods (one compound in flight for 1.4 leases);
    both clients are still registered then and expire after two leases of
